@@ -37,3 +37,11 @@ TYPES += [
          rewrites=[("pub(crate) ", "pub "), ("fn(&mut Interpreter) -> Result<Variable, ExecError>", "NativeFn")]),
     dict(name="Function", src="src/function.rs", path=[("struct", "Function")], rewrites=[("Arc<str>", "Name"), ("pub(crate) ", "pub ")]),
 ]
+TYPES += [
+    dict(name="ArrayIns", src="src/instruction/array.rs", path=[("struct", "Array")],
+         rewrites=[("pub struct Array", "pub struct ArrayIns")]),
+]
+TYPES += [
+    dict(name="TupleIns", src="src/instruction/tuple.rs", path=[("struct", "Tuple")],
+         rewrites=[("pub struct Tuple", "pub struct TupleIns")]),
+]
